@@ -46,3 +46,13 @@ def world(ctx) -> World:
     if w is None:
         w = ctx._world = World(ctx.prog)
     return w
+
+
+def ownership(ctx, watch=()):
+    from .own import Ownership
+    w = world(ctx)
+    key = tuple(sorted(watch))
+    cache = w.__dict__.setdefault("_own", {})
+    if key not in cache:
+        cache[key] = Ownership(w.prog, w.inf, watch=watch)
+    return cache[key]
